@@ -15,6 +15,9 @@ pub struct C12;
 #[derive(Serialize, Deserialize, Clone, Debug)]
 pub enum Sc {
     Mesh { label: String, mesh: M },
+    /// A mesh that is queried, then changed in place (append / transform / clone) and queried
+    /// again: every query must describe the mesh as it is at that moment.
+    History { label: String, mesh: M, steps: Vec<Step> },
     Box { w: f64, h: f64, d: f64 },
     Cylinder { r: f64, h: f64, steps: usize },
     /// A small mesh living in a huge vertex buffer: explicit vertex `i` sits at buffer index
@@ -22,6 +25,14 @@ pub enum Sc {
     Sparse { label: String, mesh: M, ids: Vec<u32>, n_vertices: usize },
     Voxels { label: String, cells: Vec<[i32; 3]> },
     Chains { label: String, branching: bool, pairs: Vec<[u32; 2]> },
+}
+
+#[derive(Serialize, Deserialize, Clone, Debug)]
+pub enum Step {
+    Append(M),
+    Transform(Pose),
+    /// continue with a clone of the mesh (the original is dropped)
+    CloneAndContinue,
 }
 
 pub struct EdgesObs {
@@ -43,6 +54,8 @@ pub struct MeshObs {
 
 pub enum Obs {
     Mesh(Box<MeshObs>),
+    /// one observation per stage of a history (stage 0 = before the first step)
+    Stages(Vec<MeshObs>),
     Construct(String),
     Voxels(OpResult<Vec<Vec<[i32; 3]>>>),
     Chains(OpResult<Vec<Vec<u32>>>),
@@ -239,6 +252,48 @@ fn gen_sparse(rng: &mut Rng) -> Sc {
     let mut ids: Vec<u32> = set.into_iter().collect();
     rng.shuffle(&mut ids);
     Sc::Sparse { label: "small-mesh-in-huge-vertex-buffer".into(), mesh: base, ids, n_vertices }
+}
+
+fn pose_to_iso(p: &Pose) -> engeom::Iso3 {
+    use parry3d_f64::na::{Matrix3, Rotation3, Translation3, UnitQuaternion};
+    let m = Matrix3::new(p.r[0][0], p.r[0][1], p.r[0][2], p.r[1][0], p.r[1][1], p.r[1][2], p.r[2][0], p.r[2][1], p.r[2][2]);
+    let q = UnitQuaternion::from_rotation_matrix(&Rotation3::from_matrix_unchecked(m));
+    engeom::Iso3::from_parts(Translation3::new(p.t[0], p.t[1], p.t[2]), q)
+}
+
+/// The mesh a history should hold after `k` steps (reference model).
+fn history_stage(mesh: &M, steps: &[Step], k: usize) -> M {
+    let mut m = mesh.clone();
+    for s in &steps[..k] {
+        match s {
+            Step::Append(o) => m = union(&m, o, None),
+            Step::Transform(p) => m = p.apply_mesh(&m),
+            Step::CloneAndContinue => {}
+        }
+    }
+    m
+}
+
+fn gen_history(rng: &mut Rng) -> Sc {
+    let mut m = gen_component(rng, 16);
+    scramble(rng, &mut m, 0.0);
+    let mut steps = Vec::new();
+    let n = 1 + rng.below(3);
+    let mut reach = m.size() * 2.0 + 2.0;
+    for _ in 0..n {
+        match rng.below(4) {
+            0 | 1 => {
+                let mut c = gen_component(rng, 8);
+                // far away from everything so far, so that all positions stay distinct
+                translate(&mut c, [reach * 4.0, rng.uniform(-1.0, 1.0), rng.uniform(-1.0, 1.0)]);
+                reach = reach * 4.0 + c.size() + 2.0;
+                steps.push(Step::Append(c));
+            }
+            2 => steps.push(Step::Transform(Pose::random(rng, 3.0))),
+            _ => steps.push(Step::CloneAndContinue),
+        }
+    }
+    Sc::History { label: "query-change-query".into(), mesh: m, steps }
 }
 
 fn gen_voxels(rng: &mut Rng, tier: Tier) -> Sc {
@@ -796,8 +851,9 @@ impl Property for C12 {
     }
 
     fn generate(&self, rng: &mut Rng, tier: Tier) -> Sc {
-        match rng.weighted(&[30, 30, 6, 6, 14, 14, 1]) {
+        match rng.weighted(&[30, 30, 6, 6, 14, 14, 1, 6]) {
             6 => gen_sparse(rng),
+            7 => gen_history(rng),
             0 => gen_small_arbitrary(rng),
             1 => gen_structured(rng, tier),
             2 => Sc::Box { w: rng.log_uniform(0.01, 100.0), h: rng.log_uniform(0.01, 100.0), d: rng.log_uniform(0.01, 100.0) },
@@ -811,6 +867,7 @@ impl Property for C12 {
         let small = match sc {
             Sc::Mesh { mesh, .. } => mesh.f.len() <= 20,
             Sc::Sparse { .. } => false,
+            Sc::History { .. } => true,
             Sc::Box { .. } => true,
             Sc::Cylinder { steps, .. } => *steps <= 10,
             Sc::Voxels { cells, .. } => cells.len() <= 60,
@@ -827,6 +884,7 @@ impl Property for C12 {
         match sc {
             Sc::Chains { .. } => 1,
             Sc::Sparse { .. } => 2,
+            Sc::History { .. } => 2 + rng.below(3),
             Sc::Mesh { mesh, .. } if mesh.f.len() > 300 => 2,
             _ => match tier {
                 Tier::Quick => 4 + rng.below(5),
@@ -844,6 +902,36 @@ impl Property for C12 {
                     OpResult::Panic(m) => Obs::Construct(m),
                     OpResult::Budget(_) => Obs::Construct("budget".into()),
                 }
+            }
+            Sc::History { mesh, steps, .. } => {
+                let mut me = match sim.op("Mesh::new", 1_000_000, || to_mesh(mesh)) {
+                    OpResult::Done(me) => me,
+                    OpResult::Panic(m) => return Obs::Construct(m),
+                    OpResult::Budget(_) => return Obs::Construct("budget".into()),
+                };
+                let mut stages = vec![observe_mesh(sim, &me, false)];
+                for s in steps {
+                    let r = match s {
+                        Step::Append(o) => {
+                            let other = to_mesh(o);
+                            sim.op("Mesh::append", 1_000_000, || me.append(&other).map_err(|e| e.to_string())).map(|_| ())
+                        }
+                        Step::Transform(p) => {
+                            let iso = pose_to_iso(p);
+                            sim.op("Mesh::transform", 1_000_000, || me.transform(&iso))
+                        }
+                        Step::CloneAndContinue => {
+                            let c = me.clone();
+                            me = c;
+                            OpResult::Done(())
+                        }
+                    };
+                    if let OpResult::Panic(m) = r {
+                        return Obs::Construct(format!("history step panicked: {}", m));
+                    }
+                    stages.push(observe_mesh(sim, &me, false));
+                }
+                Obs::Stages(stages)
             }
             Sc::Sparse { mesh, ids, n_vertices, .. } => {
                 let full = expand_sparse(mesh, ids, *n_vertices);
@@ -927,6 +1015,44 @@ impl Property for C12 {
                                 break;
                             }
                         }
+                    }
+                }
+            }
+            Sc::History { mesh, steps, .. } => {
+                stats.bump("probe:query-change-query-history");
+                for (vi, r) in runs.iter().enumerate() {
+                    match &r.obs {
+                        Obs::Construct(msg) => out.push(Violation::new("panic", "Mesh::new/append/transform", msg.clone(), &[vi])),
+                        Obs::Stages(stages) => {
+                            for (k, o) in stages.iter().enumerate() {
+                                // the mesh itself must be what the history says it is
+                                let want = history_stage(mesh, steps, k);
+                                let tol = 1e-9 * want.size();
+                                let same = want.f == o.mesh.f
+                                    && want.v.len() == o.mesh.v.len()
+                                    && want.v.iter().zip(o.mesh.v.iter()).all(|(a, b)| dist3(*a, *b) <= tol);
+                                if !same {
+                                    out.push(Violation::new(
+                                        "mesh-after-history",
+                                        "Mesh::append/transform",
+                                        format!("after {} steps the mesh has {} vertices / {} faces, expected {} / {} (or coordinates differ)", k, o.mesh.v.len(), o.mesh.f.len(), want.v.len(), want.f.len()),
+                                        &[vi],
+                                    ));
+                                    break;
+                                }
+                                // and every query must describe that mesh (the model is derived from
+                                // the mesh as the library holds it now)
+                                let before = out.len();
+                                judge_mesh(o, vi, stats, &mut out);
+                                if out.len() > before {
+                                    for v in out[before..].iter_mut() {
+                                        v.message = format!("(stage {} of a query-change-query history) {}", k, v.message);
+                                    }
+                                    break;
+                                }
+                            }
+                        }
+                        _ => unreachable!(),
                     }
                 }
             }
@@ -1051,6 +1177,23 @@ impl Property for C12 {
                 }
             }
             Obs::Construct(m) => d.str(m),
+            Obs::Stages(st) => {
+                for o in st {
+                    if let Some(Ok(e)) = o.edges.done() {
+                        for l in &e.loops {
+                            d.u64(l.len() as u64);
+                            for &x in l {
+                                d.u64(x as u64);
+                            }
+                        }
+                    }
+                    if let Some(p) = o.patches.done() {
+                        for x in p {
+                            d.u64(x.len() as u64);
+                        }
+                    }
+                }
+            }
             Obs::Voxels(o) => match o.done() {
                 Some(cl) => {
                     for c in cl {
@@ -1094,6 +1237,23 @@ impl Property for C12 {
                 let simple: Vec<[f64; 3]> = (0..mesh.v.len()).map(|i| [i as f64, ((i * i) % 7) as f64, ((i * 3) % 5) as f64]).collect();
                 if simple != mesh.v {
                     out.push(Sc::Mesh { label: label.clone(), mesh: M { v: simple, f: mesh.f.clone() } });
+                }
+            }
+            Sc::History { label, mesh, steps } => {
+                for s in chunk_removals(steps, 1) {
+                    out.push(Sc::History { label: label.clone(), mesh: mesh.clone(), steps: s });
+                }
+                for f in chunk_removals(&mesh.f, 1).into_iter().take(24) {
+                    out.push(Sc::History { label: label.clone(), mesh: M { v: mesh.v.clone(), f }.compact(), steps: steps.clone() });
+                }
+                for (si, s) in steps.iter().enumerate() {
+                    if let Step::Append(o) = s {
+                        for f in chunk_removals(&o.f, 1).into_iter().take(12) {
+                            let mut st = steps.clone();
+                            st[si] = Step::Append(M { v: o.v.clone(), f }.compact());
+                            out.push(Sc::History { label: label.clone(), mesh: mesh.clone(), steps: st });
+                        }
+                    }
                 }
             }
             Sc::Sparse { label, mesh, ids, n_vertices } => {
@@ -1169,6 +1329,7 @@ impl Property for C12 {
                 }
             }
             Sc::Sparse { .. } => fp.push("mesh:huge-vertex-buffer".into()),
+            Sc::History { .. } => fp.push("mesh:query-change-query".into()),
             Sc::Box { .. } => fp.push("primitive:box".into()),
             Sc::Cylinder { .. } => fp.push("primitive:cylinder".into()),
             Sc::Voxels { .. } => fp.push("voxels".into()),
@@ -1182,6 +1343,7 @@ impl Property for C12 {
             Sc::Mesh { mesh, .. } => mesh.f.len() >= 2,
             Sc::Box { .. } | Sc::Cylinder { .. } => true,
             Sc::Sparse { mesh, .. } => mesh.f.len() >= 2,
+            Sc::History { steps, .. } => !steps.is_empty(),
             Sc::Voxels { cells, .. } => cells.len() >= 2,
             Sc::Chains { pairs, .. } => pairs.len() >= 2,
         }
